@@ -75,6 +75,11 @@ Section Proofs.
     intros it H. destruct (canon_spec it H) as (H1 & H2 & H3 & H4).
     rewrite H1. unfold requote, qp. rewrite H3, H2. reflexivity.
   Qed.
+  Lemma schema_key_canon : forall it, canon it = true -> schema_key c (norm (text it)) = qp it.
+  Proof.
+    intros it H. unfold schema_key. destruct (schema_key_spark c); [|apply requote_canon, H].
+    destruct (canon_spec it H) as (H1 & H2 & H3 & H4). rewrite H1. unfold qp. rewrite H2. reflexivity.
+  Qed.
 
   Theorem views_agree_inv : forall d,
     views_cfg_ok c = true -> inv d = true ->
@@ -90,9 +95,11 @@ Section Proofs.
       destruct (inv_item_spec _ _ (Hi it Hin)) as [Hcan Hq];
       destruct (canon_spec it Hcan) as (H1 & H2 & H3 & H4).
     - destruct (lookup (qp it) (dmap d)); [reflexivity | symmetry; exact H1].
-    - cbv zeta. rewrite (requote_canon it Hcan).
+    - cbv zeta. rewrite (schema_key_canon it Hcan).
       destruct (lookup (qp it) (dmap d)) eqn:E; [reflexivity|].
-      destruct Hq as [Hq|Hq]; [|discriminate]. unfold qp. rewrite Hq. symmetry. exact H1.
+      destruct Hq as [Hq|Hq]; [|discriminate].
+      unfold schema_miss. destruct (schema_key_spark c); [reflexivity|].
+      rewrite (requote_canon it Hcan). unfold qp. rewrite Hq. symmetry. exact H1.
   Qed.
 
   (** * 3. the invariant holds in every state reachable through the recording alphabet *)
@@ -313,7 +320,7 @@ Section Proofs.
       apply hit_upd_all. rewrite map_map. apply in_map_iff. exists a. split; [|exact Ha].
       unfold alias_rec. simpl. rewrite (ident_good a (Hv a Ha)). reflexivity.
     - (* join *)
-      destruct (forallb (fun k => mem k (base d)) (map (fun k => qp (ident k)) keys)); [|discriminate].
+      destruct (join_keys_found norm c d keys); [|discriminate].
       injection Hb as Hs Hr; subst self' res. simpl.
       apply (Inv_ext (dmap d)); [|apply join_dmap_ext].
       apply andb_true_iff in Hv. destruct Hv as [Hr Hk]. rewrite forallb_forall in Hr, Hk.
@@ -348,7 +355,7 @@ Section Proofs.
       eapply ext_trans; [|apply resel_ext]. simpl. unfold pre. rewrite dmap_pre_with. apply psc_ext.
     - discriminate.
     - injection Hb as Hs Hr; subst self' res. exact Hi.
-    - destruct (forallb (orderby_parses norm d) vs && forallb (orderby_binds norm c d) vs); [|discriminate].
+    - destruct (forallb (orderby_parses norm c d) vs && forallb (orderby_binds norm c d) vs); [|discriminate].
       injection Hb as Hs Hr; subst self' res. exact Hi.
     - injection Hb as Hs Hr; subst self' res. exact Hi.
     - injection Hb as Hs Hr; subst self' res. exact Hi.
@@ -695,7 +702,7 @@ Section Proofs.
     - (* where *)
       injection Hb as _ Hr. subst res. exists ns. simpl. rewrite Hv. split; [reflexivity|]. repeat split; assumption.
     - (* orderBy *)
-      destruct (forallb (orderby_parses norm d) vs && forallb (orderby_binds norm c d) vs); [|discriminate].
+      destruct (forallb (orderby_parses norm c d) vs && forallb (orderby_binds norm c d) vs); [|discriminate].
       injection Hb as _ Hr. subst res. exists ns. simpl. rewrite Hv. split; [reflexivity|]. repeat split; assumption.
     - injection Hb as _ Hr. subst res. exists ns. split; [reflexivity|]. repeat split; assumption.
     - injection Hb as _ Hr. subst res. exists ns. split; [reflexivity|]. repeat split; assumption.
